@@ -53,11 +53,7 @@ func (f *Ash) Call(s *slip.Scope, args slip.List, depth int) (result slip.Object
 	sh := int(shift)
 	switch ti := args[0].(type) {
 	case slip.Fixnum:
-		if sh < 0 {
-			result = slip.Fixnum(uint64(ti) >> -sh)
-		} else {
-			result = slip.Fixnum(uint64(ti) << sh)
-		}
+		result = shiftInteger(big.NewInt(int64(ti)), sh)
 	case slip.Octet:
 		if sh < 0 {
 			result = slip.Octet(uint64(ti) >> -sh)
@@ -65,40 +61,22 @@ func (f *Ash) Call(s *slip.Scope, args slip.List, depth int) (result slip.Object
 			result = slip.Octet(uint64(ti) << sh)
 		}
 	case *slip.Bignum:
-		ba := (*big.Int)(ti).Bytes()
-		if sh < 0 {
-			sh = -sh
-			bs := sh / 8
-			sh %= 8
-			mask := byte(^(0xff << sh))
-			var rem byte
-			for i, b := range ba {
-				ba[i] = (b >> sh) | rem
-				rem = (mask & b) << (8 - sh)
-			}
-			ba = ba[:len(ba)-bs]
-		} else {
-			bs := sh / 8
-			bn := make([]byte, len(ba)+bs+1)
-			copy(bn[1:], ba)
-			sh %= 8
-			mask := byte(^(0xff >> sh))
-			for i, b := range bn {
-				if 0 < i {
-					bn[i-1] |= (mask & b) >> (8 - sh)
-				}
-				bn[i] = b << sh
-			}
-			ba = bn
-		}
-		var bi big.Int
-		bi.SetBytes(ba)
-		if (*big.Int)(ti).Sign() < 0 {
-			bi.Neg(&bi)
-		}
-		result = (*slip.Bignum)(&bi)
+		result = shiftInteger((*big.Int)(ti), sh)
 	default:
 		slip.TypePanic(s, depth, "integer", ti, "integer")
 	}
 	return
+}
+
+// shiftInteger shifts left for a positive count and right, rounding toward
+// negative infinity as a shift of a two's complement integer does, for a
+// negative count.
+func shiftInteger(bi *big.Int, count int) slip.Object {
+	var z big.Int
+	if count < 0 {
+		_ = z.Rsh(bi, uint(-count))
+	} else {
+		_ = z.Lsh(bi, uint(count))
+	}
+	return reduceNumber((*slip.Bignum)(&z))
 }
